@@ -126,9 +126,10 @@ def main(tier):
                 exp = rec.get("expected")
                 got = rec.get("result")
                 got = list(got) if isinstance(got, (list, tuple)) else got
-                ok = rec["exit"] == "return" and got == exp and rec.get("inner_calls") == len(rec["case"]) and rec.get("writes") == 0
+                ok = rec["exit"] == "return" and got == exp and rec.get("inner_calls") == len(rec["case"]) and rec.get("writes") == 0 and rec.get("inner_untouched") is True
                 run.ob("descendants", "Descendants::next/%s over inner edges %s: skips End edges, yields the first Start's node, takes no further edge" % (prof, rec["case"]), ok,
-                       key="descendants|next over inner edges %s gives %s" % (rec["case"], got if rec["exit"] == "return" else rec["exit"]), detail=rec, nontrivial=nt, sample=True)
+                       key=("descendants|next over inner edges %s gives %s" % (rec["case"], got if rec["exit"] == "return" else rec["exit"])) if rec.get("inner_untouched", True)
+                       else "descendants|next writes to the inner traversal instead of only calling its next()", detail=rec, nontrivial=nt, sample=True)
             elif t == "Descendants::next::closure":
                 variant = rec["case"][0]
                 exp = ["Some", rec["node"]] if variant == "Start" else None
